@@ -67,8 +67,12 @@ def rnd_prog(rnd, n):
         elif x < 0.75:
             prog.append({"op": "enterif", "row": rnd.choice(BLOCKS), "cond": rnd.random() < 0.5})
             depth += 1
-        elif x < 0.8:
+        elif x < 0.78:
             prog.append({"op": "menter", "rows": [["blk", "1"], ["sub", "1"]]})
+            depth += 1
+        elif x < 0.8:
+            prog.append(rnd.choice([{"op": "menterif", "rows": [["blk", "1"], ["sub", "1"]], "cond": c, "none": False} for c in ("true", "false", "default")]
+                                   + [{"op": "menterif", "rows": [["blk", "2"]], "cond": "default", "none": True}]))
             depth += 1
         elif x < 0.86:
             prog.append(rnd.choice([{"op": "enterdef", "row": ["blk", "0"], "kinds": ["w", "int"]},
@@ -111,7 +115,9 @@ def prog_tree(prog):
             frames.append(1)
         elif op in ("enterif", "enterdef"):
             frames.append(0)
-        elif op == "menter":
+        elif op == "menterif" and not (o["cond"] == "true" or (o["cond"] == "default" and not o["none"])):
+            frames.append(0)
+        elif op in ("menter", "menterif"):
             for r in o["rows"]:
                 stack = stack + [r]
                 ins(stack)
@@ -145,7 +151,7 @@ def close(prog):
     """programs are well bracketed: close what is still open (the spec's Meaning ignores trailing leaves anyway)"""
     d = 0
     for o in prog:
-        if o["op"] in ("enter", "enterif", "enterdef", "menter"):
+        if o["op"] in ("enter", "enterif", "enterdef", "menter", "menterif"):
             d += 1
         elif o["op"] == "leave":
             d -= 1
